@@ -179,20 +179,47 @@ def check_wrapper(ctx, W, tu, rec, ctor, pidx, seen):
         return 1
     xf = ex[0]
 
-    def transfer(blk, idx, e, st):
-        if e[0] != 'S':
-            return [st]
-        n = tu.node(e[1])
-        if n is None:
-            return [st]
-        if n.get('kind') == 'CXXOperatorCallExpr':
-            sd, obj, args = X.call_parts(tu, n)
-            if sd.get('q', '').endswith('::operator()') and obj is not None and member_of_this(tu, obj) == cfield[0]:
+    unknown = []
+
+    def count_in(fn, st0, depth=0):
+        """possible numbers of invocations of the stored closure after running fn entered with st0 (own helpers inlined)"""
+        if depth > 5:
+            unknown.append(fn['q'])
+            return {st0}
+
+        def transfer(blk, idx, e, st):
+            if e[0] != 'S':
+                return [st]
+            n = tu.node(e[1])
+            if n is None:
+                return [st]
+            k = n.get('kind')
+            if k == 'CXXOperatorCallExpr':
+                sd, obj, args = X.call_parts(tu, n)
+                if sd.get('q', '').endswith('::operator()') and obj is not None and member_of_this(tu, obj) == cfield[0]:
+                    return [min(2, st + 1)]
+            if k == 'CallExpr' and tu.kids(n) and member_of_this(tu, tu.kids(n)[0]) == cfield[0]:
                 return [min(2, st + 1)]
-        if n.get('kind') == 'CallExpr' and tu.kids(n) and member_of_this(tu, tu.kids(n)[0]) == cfield[0]:
-            return [min(2, st + 1)]
-        return [st]
-    counts, _r = X.exit_states(tu.cfg(xf), [0], transfer)
+            if k == 'CXXMemberCallExpr':
+                sd, obj, args = tu.call_parts(n)
+                callee = tu.callee_fn(n)
+                if obj is not None and X.is_this_expr(tu, obj) and callee is not None and callee.get('recid') == rec['id'] \
+                        and tu.cfg(callee) is not None:
+                    return sorted(count_in(callee, st, depth + 1))
+            if k in ('CallExpr', 'CXXMemberCallExpr') + X.CONSTRUCTS:
+                sd, obj, args = X.call_parts(tu, n)
+                if sd.get('q') not in X.FORWARDERS and not (k in X.CONSTRUCTS and X.is_copy_construct(tu, n)) and \
+                        any(member_of_this(tu, a) == cfield[0] or X.is_this_expr(tu, a) or
+                            (X.addr_of(tu, a) is not None and member_of_this(tu, X.addr_of(tu, a)) == cfield[0]) for a in args):
+                    unknown.append('%s (%s)' % (sd.get('q'), tu.loc(n)))
+            return [st]
+        ex2, _r = X.exit_states(tu.cfg(fn), [st0], transfer)
+        return ex2 or {st0}
+    counts = count_in(xf, 0)
+    if counts != {1} and unknown and 2 not in counts:
+        ctx.undecided(R1, inst, 'ExecuteRange hands the stored closure (or the task itself) to %s, which is not followed: cannot count the '
+                      'invocations' % ', '.join(sorted(set(unknown))), tu.fn_loc(xf))
+        return 1
     if counts != {1}:
         bad = True
         kind = 'dropped' if 0 in counts else 'twice'
@@ -726,112 +753,154 @@ def check_result_protocol(ctx, W, o, joiner):
     else:
         ctx.undecided(R3, inst0 + ': completion flag `%s`' % flagn, 'completion flag of unrecognised type %s' % fct, tu.fn_loc(o.ctor))
     # ---- closure: invoke once -> store result -> store flag(true); no result access afterwards
+    #      (member functions of the same class called on `this` are inlined, the task function may be passed on as an argument)
     n += 1
     clo = o.clo
     op = clo.op
-    g = tu.cfg(op)
     cinst = inst0 + ': closure started by the constructor'
     captured = {w for w, r, t in clo.captures if w not in ('this', None)}
-    results = set()      # node ids / var ids carrying the functor's result
-    ev = {}
-    und = []
-    for b, i, x in g.stmts():
-        k = x.get('kind')
-        if k in ('CXXOperatorCallExpr', 'CallExpr'):
-            sd, obj, args = X.call_parts(tu, x)
-            tgt = obj if (k == 'CXXOperatorCallExpr' and sd.get('q', '').endswith('::operator()')) else \
-                (tu.kids(x)[0] if k == 'CallExpr' and tu.kids(x) else None)
-            if tgt is not None and decl_ref(tu, tgt) in captured:
-                ev[x['id']] = ('invoke', x)
-                results.add(x['id'])
-                continue
-        a = atomic_op(tu, x)
-        if a is not None and member_of_this(tu, a[1]) == flag:
-            if a[0] == 'store':
-                ev[x['id']] = ('flag-store', x, a)
-            continue
-        if k in ('BinaryOperator', 'CXXOperatorCallExpr') and (x.get('opcode') == '=' or
-                                                               tu.sd(x).get('q', '').split('::')[-1] == 'operator='):
-            ks = tu.kids(x)
-            lhs, rhs = (ks[0], ks[1]) if k == 'BinaryOperator' else (ks[1], ks[2]) if len(ks) >= 3 else (None, None)
-            if lhs is not None and member_of_this(tu, lhs) == res:
-                ev[x['id']] = ('res-store', x, rhs)
-                continue
-            if lhs is not None and member_of_this(tu, lhs) == flag:
-                ev[x['id']] = ('flag-store', x, ('store', lhs, rhs, 'plain'))
-                continue
-        if k == 'MemberExpr' and tu.sd(x).get('d') == res and member_of_this(tu, x) == res:
-            ev[x['id']] = ('res-access', x)
-    # locals carrying the result
-    decl = X.fn_decl(tu, op)
-    for _ in range(2):
-        for x in tu.walk(decl):
-            if x.get('kind') == 'VarDecl' and tu.kids(x):
-                c = core(tu, tu.kids(x)[-1])
-                if c is not None and (c.get('id') in results or decl_ref(tu, c) in results):
-                    results.add(x['id'])
-    store_nodes = {}
-    for nid, e in ev.items():
-        if e[0] == 'res-store':
-            c = core(tu, e[2])
-            okv = c is not None and (c.get('id') in results or decl_ref(tu, c) in results)
-            if not okv:
-                und.append('the value stored into `%s` at %s is not recognised as the result of the task function' % (resn, tu.loc(e[1])))
-            # the MemberExpr on the left of the store is part of the store, not a separate access
-            lhs = core(tu, tu.kids(e[1])[0] if e[1].get('kind') == 'BinaryOperator' else tu.kids(e[1])[1])
-            if lhs is not None:
-                store_nodes[lhs['id']] = nid
-    problems = []
-    for nid, e in ev.items():
-        if e[0] == 'invoke':
-            sd0, obj0, args0 = X.call_parts(tu, e[1])
-            tgt0 = obj0 if e[1].get('kind') == 'CXXOperatorCallExpr' else tu.kids(e[1])[0]
-            cap = clo.capture_of(decl_ref(tu, tgt0))
-            if cap is not None and cap[1] and not joiner.trivially_joined(o):
-                problems.append(('functor-captured-by-reference', 'the closure started by the constructor captures the task function by '
-                                 'reference (%s): it refers to a constructor parameter that is gone when the constructor returns, the task '
-                                 'then calls through a dangling reference' % cap[2], tu.loc(clo.node)))
+    und, problems = [], []
+    if not joiner.trivially_joined(o):
+        for w, byref, qt in clo.captures:
+            if w in captured and byref and any(p['id'] == w for p in o.ctor['params']):
+                problems.append(('functor-captured-by-reference', 'the closure started by the constructor captures the constructor parameter '
+                                 '`%s` by reference (%s): it is gone when the constructor returns, the task then calls through a dangling '
+                                 'reference' % ((tu.node(w) or {}).get('name'), qt), tu.loc(clo.node)))
+    memo = {}
 
-    def transfer(blk, idx, e, st):
-        if e[0] != 'S':
-            return [st]
-        x = ev.get(e[1])
-        if x is None or e[1] in store_nodes:
-            return [st]
-        inv, sto, flg = st
-        if x[0] == 'invoke':
-            return [(min(2, inv + 1), sto, flg)]
-        if x[0] == 'res-store':
-            if flg:
-                problems.append(('result-after-flag', 'the result `%s` is stored at %s after the completion flag `%s` has been set: '
-                                 'finished() can be true and get() can return before the value is there' % (resn, tu.loc(x[1]), flagn), tu.loc(x[1])))
-            return [(inv, min(2, sto + 1), flg)]
-        if x[0] == 'res-access':
-            if flg:
-                problems.append(('result-after-flag', 'the result `%s` is accessed at %s after the completion flag `%s` has been set'
-                                 % (resn, tu.loc(x[1]), flagn), tu.loc(x[1])))
-            return [st]
-        if x[0] == 'flag-store':
-            a = x[2]
-            val = const_value(tu, a[2]) if a[2] is not None else None
-            if val is None and a[2] is not None:
-                c = core(tu, a[2])
-                if c is not None and c.get('kind') == 'CXXBoolLiteralExpr':
-                    val = 1 if c.get('value') else 0
-            if val != 1:
-                und.append('completion flag receives a value other than the constant true at %s' % tu.loc(x[1]))
+    def prepare(fn, functors):
+        """event table of one function body; functors = decl ids that denote the task function there"""
+        key = (fn['id'], tuple(sorted(functors)))
+        if key in memo:
+            return memo[key]
+        g = tu.cfg(fn)
+        ev, results, store_nodes = {}, set(), {}
+        for b, i, x in g.stmts():
+            k = x.get('kind')
+            if k in ('CXXOperatorCallExpr', 'CallExpr'):
+                sd, obj, args = X.call_parts(tu, x)
+                tgt = obj if (k == 'CXXOperatorCallExpr' and sd.get('q', '').endswith('::operator()')) else \
+                    (tu.kids(x)[0] if k == 'CallExpr' and tu.kids(x) else None)
+                if tgt is not None and decl_ref(tu, tgt) in functors:
+                    ev[x['id']] = ('invoke', x)
+                    results.add(x['id'])
+                    continue
+            if k == 'CXXMemberCallExpr':
+                sd, obj, args = tu.call_parts(x)
+                callee = tu.callee_fn(x)
+                if obj is not None and X.is_this_expr(tu, obj) and callee is not None and callee.get('recid') == rec['id'] \
+                        and tu.cfg(callee) is not None and not atomic_op(tu, x):
+                    nf = {callee['params'][ai]['id'] for ai, a in enumerate(args)
+                          if ai < len(callee['params']) and decl_ref(tu, a) in functors}
+                    ev[x['id']] = ('call', x, callee, nf)
+                    continue
+            if k in ('CallExpr', 'CXXMemberCallExpr') + X.CONSTRUCTS and k not in ('CXXMemberCallExpr',):
+                sd, obj, args = X.call_parts(tu, x)
+                if sd.get('q') not in X.FORWARDERS and not (k in X.CONSTRUCTS and X.is_copy_construct(tu, x)) and \
+                        any(decl_ref(tu, a) in functors or X.is_this_expr(tu, a) for a in args):
+                    ev[x['id']] = ('unknown', x, sd.get('q'))
+                    continue
+            a = atomic_op(tu, x)
+            if a is not None and member_of_this(tu, a[1]) == flag:
+                if a[0] == 'store':
+                    ev[x['id']] = ('flag-store', x, a)
+                continue
+            if k in ('BinaryOperator', 'CXXOperatorCallExpr') and (x.get('opcode') == '=' or
+                                                                   tu.sd(x).get('q', '').split('::')[-1] == 'operator='):
+                ks = tu.kids(x)
+                lhs, rhs = (ks[0], ks[1]) if k == 'BinaryOperator' else (ks[1], ks[2]) if len(ks) >= 3 else (None, None)
+                if lhs is not None and member_of_this(tu, lhs) == res:
+                    ev[x['id']] = ('res-store', x, rhs)
+                    continue
+                if lhs is not None and member_of_this(tu, lhs) == flag:
+                    ev[x['id']] = ('flag-store', x, ('store', lhs, rhs, 'plain'))
+                    continue
+            if k == 'MemberExpr' and tu.sd(x).get('d') == res and member_of_this(tu, x) == res:
+                ev[x['id']] = ('res-access', x)
+        decl = X.fn_decl(tu, fn)
+        for _ in range(2):          # locals carrying the task function's result
+            for x in tu.walk(decl):
+                if x.get('kind') == 'VarDecl' and tu.kids(x):
+                    c = core(tu, tu.kids(x)[-1])
+                    if c is not None and (c.get('id') in results or decl_ref(tu, c) in results):
+                        results.add(x['id'])
+        for nid, e in list(ev.items()):
+            if e[0] == 'res-store':
+                c = core(tu, e[2])
+                if not (c is not None and (c.get('id') in results or decl_ref(tu, c) in results)):
+                    und.append('the value stored into `%s` at %s is not recognised as the result of the task function' % (resn, tu.loc(e[1])))
+                lhs = core(tu, tu.kids(e[1])[0] if e[1].get('kind') == 'BinaryOperator' else tu.kids(e[1])[1])
+                if lhs is not None:
+                    store_nodes[lhs['id']] = nid      # the MemberExpr on the left belongs to the store
+        memo[key] = (g, ev, store_nodes)
+        return memo[key]
+    summaries = {}
+
+    def run_fn(fn, functors, st0, depth=0):
+        """exit states of fn entered in state st0 = (invoked, stored, flagged, saw-unknown-call)"""
+        skey = (fn['id'], tuple(sorted(functors)), st0)
+        if skey in summaries:
+            return summaries[skey]
+        if depth > 6:
+            und.append('call chain from the closure too deep at %s' % fn['q'])
+            return {st0}
+        summaries[skey] = {st0}     # recursion guard
+        g, ev, store_nodes = prepare(fn, functors)
+
+        def transfer(blk, idx, e, st):
+            if e[0] != 'S':
                 return [st]
-            if a[3] not in (3, 5, 4, 'plain'):
-                problems.append(('flag-store-order', 'the completion flag `%s` is stored with memory_order_%s at %s: the result store is '
-                                 'not ordered before it' % (flagn, ORDER.get(a[3], a[3]), tu.loc(x[1])), tu.loc(x[1])))
-            if not sto:
-                problems.append(('flag-before-result', 'the completion flag `%s` is set at %s on a path where the result `%s` has not '
-                                 'been stored yet: finished() becomes true and get() returns a value that is still being written'
-                                 % (flagn, tu.loc(x[1]), resn), tu.loc(x[1])))
-            return [(inv, sto, 1)]
-        return [st]
-    exits, _r = X.exit_states(g, [(0, 0, 0)], transfer)
-    for inv, sto, flg in sorted(exits):
+            x = ev.get(e[1])
+            if x is None or e[1] in store_nodes:
+                return [st]
+            inv, sto, flg, unk = st
+            if x[0] == 'invoke':
+                return [(min(2, inv + 1), sto, flg, unk)]
+            if x[0] == 'call':
+                return sorted(run_fn(x[2], x[3], st, depth + 1))
+            if x[0] == 'unknown':
+                return [(inv, sto, flg, True)]
+            if x[0] == 'res-store':
+                if flg:
+                    problems.append(('result-after-flag', 'the result `%s` is stored at %s after the completion flag `%s` has been set: '
+                                     'finished() can be true and get() can return before the value is there' % (resn, tu.loc(x[1]), flagn), tu.loc(x[1])))
+                return [(inv, min(2, sto + 1), flg, unk)]
+            if x[0] == 'res-access':
+                if flg:
+                    problems.append(('result-after-flag', 'the result `%s` is accessed at %s after the completion flag `%s` has been set'
+                                     % (resn, tu.loc(x[1]), flagn), tu.loc(x[1])))
+                return [st]
+            if x[0] == 'flag-store':
+                a = x[2]
+                val = const_value(tu, a[2]) if a[2] is not None else None
+                if val is None and a[2] is not None:
+                    c = core(tu, a[2])
+                    if c is not None and c.get('kind') == 'CXXBoolLiteralExpr':
+                        val = 1 if c.get('value') else 0
+                if val != 1:
+                    und.append('completion flag receives a value other than the constant true at %s' % tu.loc(x[1]))
+                    return [st]
+                if a[3] not in (3, 5, 4, 'plain'):
+                    problems.append(('flag-store-order', 'the completion flag `%s` is stored with memory_order_%s at %s: the result store is '
+                                     'not ordered before it' % (flagn, ORDER.get(a[3], a[3]), tu.loc(x[1])), tu.loc(x[1])))
+                if not sto:
+                    if unk:
+                        und.append('the completion flag is set at %s after a call whose effect on `%s` is not followed' % (tu.loc(x[1]), resn))
+                    else:
+                        problems.append(('flag-before-result', 'the completion flag `%s` is set at %s on a path where the result `%s` has not '
+                                         'been stored yet: finished() becomes true and get() returns a value that is still being written'
+                                         % (flagn, tu.loc(x[1]), resn), tu.loc(x[1])))
+                return [(inv, sto, 1, unk)]
+            return [st]
+        exits, _r = X.exit_states(g, [st0], transfer)
+        summaries[skey] = exits or {st0}
+        return summaries[skey]
+    exits = run_fn(op, captured, (0, 0, 0, False))
+    for inv, sto, flg, unk in sorted(exits):
+        if unk and (inv != 1 or sto == 0 or not flg):
+            und.append('the closure calls a function that is not followed (it receives `this` or the task function); the '
+                       'invoke / store / publish protocol cannot be established')
+            continue
         if inv != 1:
             problems.append(('invoke-count', 'the task function is invoked %s on some path through the closure'
                              % ('zero times' if inv == 0 else 'more than once'), tu.fn_loc(op)))
@@ -862,6 +931,8 @@ def check_result_protocol(ctx, W, o, joiner):
     # ---- outside the closure the result member is only read (get() can be called any number of times)
     for m in sorted([f for f in tu.functions.values() if f.get('recid') == rec['id'] and not f['dep'] and tu.cfg(f) is not None
                      and not f.get('ctor') and not f.get('dtor')], key=lambda f: f['q']):
+        if m['id'] in {k[0] for k in memo}:
+            continue        # part of the task body (called from the started closure): analysed above
         uses = result_uses(tu, m, res)
         if not uses:
             continue
@@ -909,7 +980,11 @@ def check_result_protocol(ctx, W, o, joiner):
                     return [True]
         return [st]
     X.exit_states(gg, [joiner.trivially_joined(o)], gtransfer, grefine)
-    if gproblems:
+    gunf = joiner.unfollowed(o, getf) if gproblems else []
+    if gunf:
+        ctx.undecided(R3, ginst, 'get() hands the object / its task handle to %s, which is not followed: cannot establish whether the '
+                      'result is read only after the task finished' % ', '.join(sorted(set(gunf))), tu.fn_loc(getf))
+    elif gproblems:
         for kind, text, loc in sorted(set(gproblems)):
             ctx.violation(R3, ginst, text, loc, key='%s|%s|%s::get|%s' % (R3, tu.fn_file(getf), rn, kind))
     else:
@@ -1049,6 +1124,42 @@ class Joiner:
         self.memo[key] = ok
         return ok
 
+    def unfollowed(self, o, fn, depth=0, seen=None):
+        """calls in fn (and own methods it calls) that receive `this` or the starter member and are not analysed"""
+        tu = o.tu
+        seen = seen if seen is not None else set()
+        out = []
+        if fn['id'] in seen or depth > 5 or tu.cfg(fn) is None:
+            return out
+        seen.add(fn['id'])
+        srec = self.starter_rec(o)
+
+        def about_task(e):
+            if X.is_this_expr(tu, e):
+                return True
+            for y in (e, X.addr_of(tu, e)):
+                if y is not None and o.starter_field and member_of_this(tu, y) == o.starter_field:
+                    return True
+            return False
+        for b, i, x in tu.cfg(fn).stmts():
+            if x.get('kind') not in ('CXXMemberCallExpr', 'CallExpr') + X.CONSTRUCTS:
+                continue
+            sd, obj, args = X.call_parts(tu, x)
+            callee = tu.callee_fn(x)
+            if x.get('kind') == 'CXXMemberCallExpr' and obj is not None:
+                if X.is_this_expr(tu, obj) and callee is not None and callee.get('recid') == o.rec['id']:
+                    out += self.unfollowed(o, callee, depth + 1, seen)
+                    continue
+                if o.starter_field and member_of_this(tu, obj) == o.starter_field:
+                    if callee is None or tu.cfg(callee) is None:
+                        out.append('%s (%s)' % (sd.get('q'), tu.loc(x)))
+                    continue
+            if sd.get('q') in X.FORWARDERS or (x.get('kind') in X.CONSTRUCTS and X.is_copy_construct(tu, x)):
+                continue
+            if any(about_task(a) for a in args):
+                out.append('%s (%s)' % (sd.get('q'), tu.loc(x)))
+        return out
+
     def starter_calls(self, o, fn, depth=0, seen=None):
         """calls made on the starter member from fn and the own methods it calls: [(call node, callee)]"""
         tu = o.tu
@@ -1126,6 +1237,11 @@ def check_wait_before_release(ctx, W, o, J, verdicts=None):
                 ctx.ok(R4, '[%s] %s' % (tu.config, callee['q'].replace('rkcommon::tasking::', '')) + W.tag,
                        'joins what the constructor started (%s) on every path' % how, tu.fn_loc(callee),
                        nontrivial=not J.trivially_joined(o))
+        return 1
+    unf = J.unfollowed(o, d)
+    if unf:
+        ctx.undecided(R4, inst, 'the destructor hands the object / its task handle to %s, which is not followed: cannot establish whether '
+                      'the task is waited for' % ', '.join(sorted(set(unf))), tu.fn_loc(d))
         return 1
     calls = J.starter_calls(o, d)
     blamed = False
@@ -1218,7 +1334,10 @@ def check_async(ctx, W, tu, f):
             break
         if c is not None and c.get('kind') == 'DeclRefExpr':
             return c.get('referencedDecl', {}).get('id')
+        if c is not None and c.get('kind') == 'MemberExpr' and member_of_this(tu, c) in fmap:
+            return fmap[member_of_this(tu, c)]      # field of a functor class = the variable it was constructed from
         return None
+    fmap = {}
     # events in async itself
     getf = sched = None
     lam = None
@@ -1233,8 +1352,8 @@ def check_async(ctx, W, tu, f):
         if k == 'CallExpr':
             sd, obj, args = tu.call_parts(n)
             for ai, a in enumerate(args):
-                l2 = X.find_lambda(tu, a)
-                if l2 is None:
+                l2 = X.find_closure(tu, a)
+                if l2 is None or l2.op is None:
                     continue
                 callee = tu.callee_fn(n)
                 h = W.ha.analyse(tu, callee, ai) if callee is not None and tu.cfg(callee) is not None else None
@@ -1286,13 +1405,14 @@ def check_async(ctx, W, tu, f):
         if not fut_ok:
             und.append('the returned future is not recognisably the one obtained from get_future()')
     # the closure
-    clo = X.Closure(tu, lam)
+    clo = lam
+    fmap.update(clo.fieldmap)
     cap = clo.capture_of(tvar)
     if cap is None:
         und.append('the scheduled closure does not capture the packaged_task pointer `%s`' % tname)
     elif cap[1]:
         problems.append(('captured-by-reference', 'the scheduled closure captures the local pointer `%s` by reference (%s): the local is '
-                         'gone when async() returns, the task then invokes/deletes through a dangling reference' % (tname, cap[2]), tu.loc(lam)))
+                         'gone when async() returns, the task then invokes/deletes through a dangling reference' % (tname, cap[2]), tu.loc(clo.node)))
     if clo.op is None or tu.cfg(clo.op) is None:
         und.append('closure body not in the facts')
     else:
@@ -1313,7 +1433,7 @@ def check_async(ctx, W, tu, f):
                     if dele:
                         cprob.append(('use-after-delete', 'the closure invokes the packaged_task at %s after deleting it' % tu.loc(x), tu.loc(x)))
                     return [(min(2, inv + 1), dele)]
-            if k == 'CXXDeleteExpr' and tu.kids(x) and decl_ref(tu, tu.kids(x)[0]) == tvar:
+            if k == 'CXXDeleteExpr' and tu.kids(x) and target(tu.kids(x)[0]) == tvar:
                 if dele:
                     cprob.append(('double-delete', 'the closure deletes the packaged_task twice (%s)' % tu.loc(x), tu.loc(x)))
                 if not inv:
@@ -1322,7 +1442,17 @@ def check_async(ctx, W, tu, f):
                 return [(inv, 1)]
             return [st]
         cex, _r = X.exit_states(cg, [(0, 0)], ctransfer)
+        # calls that receive the task pointer but are not followed: their effect is unknown
+        unknown = []
+        for b2, i2, x in cg.stmts():
+            if x.get('kind') in ('CallExpr', 'CXXMemberCallExpr'):
+                sd2, obj2, args2 = X.call_parts(tu, x)
+                if any(target(a) == tvar for a in args2) and sd2.get('q') not in X.FORWARDERS:
+                    unknown.append('%s (%s)' % (sd2.get('q'), tu.loc(x)))
         for inv, dele in sorted(cex):
+            if inv == 0 and unknown:
+                und.append('the closure passes the packaged_task to %s, which is not followed' % ', '.join(sorted(set(unknown))))
+                continue
             if inv != 1:
                 cprob.append(('invoke-count', 'the closure invokes the packaged_task %s on some path: %s'
                               % ('zero times' if inv == 0 else 'more than once',
@@ -1925,7 +2055,7 @@ def floors(ctx, r, tag=''):
         if not want <= r['names'].get(cfg, set()):
             ctx.broken('%s: hand-off chain incomplete under %s%s: missing %s' % (R1, cfg, tag, sorted(want - r['names'].get(cfg, set()))))
     ctx.floor(R2, r['n2'], 12, 'touched members x AsyncTask<int>/<std::string> x 4 backends: 16' + tag)
-    ctx.floor(R3, r['n3'], 40, 'flag type, closure, flag readers, get() x 2 instantiations x 4 backends: 48' + tag)
+    ctx.floor(R3, r['n3'], 32, 'flag type, closure, flag readers, result uses, get() x 2 instantiations x 4 backends: 56' + tag)
     ctx.floor(R4, r['n4'], 9, '~AsyncTask x 2 instantiations x 4 backends + WaitforTask' + tag)
     ctx.floor(R5, r['n5'], 8, 'async<IntJob>, async<StringJob&> x 4 backends' + tag)
     ctx.floor(R6, r['n6'], 5, 'ExecuteRange overrides: schedule_internal x 3, AsyncTaskImpl, parallel_for_internal' + tag)
